@@ -253,6 +253,9 @@ var britishSpellings = [][2]string{{"license", "licence"}, {"License", "Licence"
 type Pool struct {
 	Scenarios []Scenario
 	Docs      []Doc
+	// Threshold of the classifier the inputs are meant for (0: unknown); used
+	// to build inputs that sit on the first-pass (token frequency) boundary.
+	Threshold float64
 }
 
 // Input is a generated input with a description.
@@ -263,7 +266,7 @@ type Input struct {
 
 // Gen draws one input. maxLen bounds its size (bytes, approximately).
 func (p *Pool) Gen(s *choice.Stream, maxLen int) Input {
-	kind := s.Pick([]int{5, 4, 3, 2, 2, 2, 1, 1, 3, 3, 3, 3}, "input-kind")
+	kind := s.Pick([]int{5, 4, 3, 2, 2, 2, 1, 1, 3, 3, 3, 3, 3}, "input-kind")
 	var desc string
 	var b []byte
 	switch kind {
@@ -398,6 +401,72 @@ func (p *Pool) Gen(s *choice.Stream, maxLen int) Input {
 		}
 		desc = fmt.Sprintf("respelled(%d words):%s", n, d.Key())
 		b = []byte(txt)
+	case 12: // a document with just as many distinct words removed as the threshold tolerates, plus words of other documents
+		d := p.Docs[s.Draw(len(p.Docs), "doc")]
+		for try := 0; try < 4 && len(d.Data) > 6000; try++ {
+			d = p.Docs[s.Draw(len(p.Docs), "doc")]
+		}
+		thr := p.Threshold
+		if thr == 0 {
+			thr = 0.8
+		}
+		words := strings.Fields(string(d.Data))
+		norm := func(w string) string {
+			var sb strings.Builder
+			for _, r := range strings.ToLower(w) {
+				if (r >= 'a' && r <= 'z') || (r >= '0' && r <= '9') {
+					sb.WriteRune(r)
+				}
+			}
+			return sb.String()
+		}
+		var distinct []string
+		seenW := map[string]bool{}
+		for _, w := range words {
+			if n := norm(w); n != "" && !seenW[n] {
+				seenW[n] = true
+				distinct = append(distinct, n)
+			}
+		}
+		m := int(float64(len(distinct))*(1-thr)+1e-9) + []int{-1, 0, 0, 0, 1}[s.Draw(5, "boundary-delta")]
+		if m < 0 {
+			m = 0
+		}
+		// drop rare words first (a dropped frequent word costs too much confidence)
+		freq := map[string]int{}
+		for _, w := range words {
+			freq[norm(w)]++
+		}
+		sort.SliceStable(distinct, func(i, j int) bool { return freq[distinct[i]] < freq[distinct[j]] })
+		drop := map[string]bool{}
+		for i := 0; i < m && len(distinct) > 0; i++ {
+			// among the rarest quarter
+			q := len(distinct)/4 + 1
+			if q > len(distinct) {
+				q = len(distinct)
+			}
+			k := s.Draw(q, "boundary-drop")
+			drop[distinct[k]] = true
+			distinct = append(distinct[:k], distinct[k+1:]...)
+		}
+		var kept []string
+		for _, w := range words {
+			if !drop[norm(w)] {
+				kept = append(kept, w)
+			}
+		}
+		// words of other documents (known to the dictionary, foreign to this document)
+		var extra []string
+		for i := 0; i < s.Draw(40, "boundary-extra"); i++ {
+			o := strings.Fields(string(p.Docs[s.Draw(len(p.Docs), "doc")].Data))
+			if len(o) > 0 {
+				if w := o[s.Draw(len(o), "extra-word")]; !seenW[norm(w)] {
+					extra = append(extra, w)
+				}
+			}
+		}
+		desc = fmt.Sprintf("boundary(%d of %d distinct words dropped, %d foreign known words):%s", len(drop), len(drop)+len(distinct), len(extra), d.Key())
+		b = []byte(strings.Join(kept, " ") + "\n" + strings.Join(extra, " "))
 	case 7: // hyphenated line ends and CRLF
 		sc := p.Scenarios[s.Draw(len(p.Scenarios), "scenario")]
 		txt := string(sc.Data)
